@@ -257,8 +257,9 @@ class Runner:
             vals = []
             for j in range(d):
                 bits = (intent >> (3 * j)) & 7
-                if not np.isfinite(lo):  # ClipAction outermost: unbounded outer space
-                    ilo, ihi = rs.action_bounds_below(len(rs.stack) - 1)
+                if not np.isfinite(lo):  # a ClipAction makes the outer action space unbounded: use the bounds below it
+                    clip_level = max(i for i, sp in enumerate(rs.stack) if sp[0] == "ClipAction")
+                    ilo, ihi = rs.action_bounds_below(clip_level)
                     grid = [ilo - 3.0, ilo, ilo + (ihi - ilo) * 0.25 + 1e-3, (ilo + ihi) / 2 + 1e-3, ihi, ihi + 2.5, ihi + 100.0, ilo - 0.5]
                     vals.append(grid[bits])
                     continue
@@ -409,9 +410,10 @@ class Runner:
                         res.fail("C13", "passthrough", "action_mask_mismatch", s=cur["s"])
                 else:
                     res.ok("C13", "passthrough")
-                if out["tinfo"] != {} or out["sinfo"] != {}:
+                self._check_info(res, props, mdp, out["tinfo"], cur["s"], nxt["s"], e32, a, via="functional")
+                if out["sinfo"] != {}:
                     if "C13" in props:
-                        res.fail("C13", "passthrough", "info_not_passed_through")
+                        res.fail("C13", "passthrough", "state_info_not_passed_through")
                 continue
             # ---- step
             if exec_mode == "eager":
@@ -435,6 +437,7 @@ class Runner:
             reward, terminal, truncated = float(reward), bool(terminal), bool(truncated)
             tr.ev("op", op="step", s=cur["s"], a=np.asarray(a).tolist(), r=reward, term=terminal, trunc=truncated, s_ret=nxt["s"])
             self._check_step(res, props, mdp, rs, cur, nxt, a, e32, cands, reward, terminal, truncated, limits)
+            self._check_info(res, props, mdp, jax.device_get(info), cur["s"], None, e32, a, via="step")
             if not expected_obs_ok(obs, nxt["s"]):
                 if "C01" in props:
                     res.fail("C01", "step_obs_of_returned_state", "observation_not_of_returned_state", s_ret=nxt["s"], done=terminal or truncated)
@@ -571,6 +574,26 @@ class Runner:
                     res.fail("C01", "step_state_successor", "clocks_not_advanced", before=cur, after=nxt)
             elif nxt["s"] in cands:
                 res.ok("C01", "step_state_successor")
+
+    def _check_info(self, res, props, mdp, info, s, s2, e32, a, via):
+        """transition_info of the wrapped environment is the inner environment's info for the MAPPED action."""
+        if "C13" not in props:
+            return
+        if not isinstance(info, dict) or set(info) != {"action_echo", "from", "to"}:
+            res.fail("C13", "passthrough", "transition_info_not_passed_through", via=via, got=str(info)[:120])
+            return
+        if self.kind in ("box", "boxscalar"):
+            want = float(np.sum(np.asarray(e32, dtype=np.float64)))
+            unm = float(np.sum(np.asarray(a, dtype=np.float64)))
+        else:
+            want = float(mdp.decode(e32)[0])
+            unm = float(mdp.decode(a)[0]) if np.asarray(a).shape == np.asarray(e32).shape else None
+        got = float(info["action_echo"])
+        if abs(got - want) > 1e-4 * max(1.0, abs(want)) or int(info["from"]) != s or (s2 is not None and int(info["to"]) != s2):
+            cause = "info_with_unmapped_action" if unm is not None and abs(got - unm) <= 1e-4 * max(1.0, abs(unm)) and abs(unm - want) > 1e-4 else "transition_info_mismatch"
+            res.fail("C13", "action_mapped_everywhere", cause, via=via, got=got, expected=want)
+        else:
+            res.ok("C13", "action_mapped_everywhere")
 
     def _space_check(self, res, props, env, obs):
         if "C13" not in props:
